@@ -218,6 +218,8 @@ class Editor(object):
     alerts / data, not the flush of the queue) in program order.  edits: list of tuples
         ('skip', j) ('dup', j) ('swap', j) ('insert', j, kind) ('replace', j, kind)
         ('nohash_insert', j, kind) ('epoch', j, 'null'|'prev'|'pending')
+        ('frag', j): the record of message j also carries the first 3 bytes of a KeyUpdate (rest sent later)
+        ('span', j): the record of message j also carries the first 3 bytes of message j+1
     inserts go before message j.  'swap' j: message j+1 goes out first under the write state of
     position j, then message j under the then-current state.  Everything really emitted is logged
     in self.emitted: {kind, epoch (index of the write state used), plus (another handshake message
@@ -234,6 +236,8 @@ class Editor(object):
         self.emitted = []
         self.pending_q = []               # log entries of messages sitting in the queue
         self.held = None
+        self.span = None                  # message whose record will also carry the head of the next one
+        self.frag_rest = None
         self.applied = set()
         self.na = []                      # edits that could not be applied (with reason)
         self.states = []                  # write states in the order they became current
@@ -368,6 +372,65 @@ class Editor(object):
         else:
             self._direct(m, origin, state, update_hashes)
 
+    def _emit_with_fragment(self, via, msg):
+        """message `msg` and, inside the same record, the first 3 bytes of a KeyUpdate message whose
+        remaining 2 bytes follow after the handshake (finish()): handshake bytes that span a key change"""
+        from tlslite.messages import Message, KeyUpdate
+        conn = self.conn
+        ku = bytes(KeyUpdate().create(0).write())
+        head, self.frag_rest = ku[:3], ku[3:]
+        if via == "queue":
+            ents = self._log(msg, "own")
+            self.pending_q.extend(ents)
+            self.cls._queue_message(conn, msg)
+            conn._buffer += bytearray(head)
+        else:
+            self._flush()
+            ents = self._log(msg, "own")
+            body = bytearray(msg.write())
+            conn._handshake_hash.update(body)
+            drain(self.cls._sendMsg(conn, Message(22, body + bytearray(head)), True, False))
+        ents[-1]["plus"] = True
+        ents[-1]["frag"] = True
+
+    def _release_span(self, nxt, via):
+        """send the held message; its record also carries the first 3 bytes of `nxt` (the next handshake
+        message, whose remaining bytes travel the normal way, under the then-current keys)"""
+        from tlslite.messages import Message
+        if self.span is None:
+            return
+        conn = self.conn
+        sp, self.span = self.span, None
+        body = bytearray(sp["msg"].write())
+        nb = bytearray(nxt.write()) if nxt is not None else bytearray()
+        head = nb[:3]
+        rl = conn._recordLayer
+        ents = self._log(sp["msg"], "own", epoch=sp["state"][0])
+        if head:
+            ents[-1]["plus"] = True
+            ents[-1]["span"] = True
+        saved = rl._writeState
+        rl._writeState = sp["state"][1]
+        try:
+            drain(self.cls._sendMsg(conn, Message(22, body + head), True, False))
+        finally:
+            rl._writeState = saved
+        for x in sp["extra"]:
+            self._log(x, "own")
+            drain(self.cls._sendMsg(conn, x, True, True))
+        if nxt is None:
+            return
+        conn._handshake_hash.update(nb)
+        rest = Message(22, nb[3:])
+        if via == "queue":
+            self.pending_q.extend(self._log(nxt, "own"))
+            if conn._buffer_content_type is None:
+                conn._buffer_content_type = 22
+            conn._buffer += nb[3:]
+        else:
+            self._log(nxt, "own")
+            drain(self.cls._sendMsg(conn, rest, True, False))
+
     # -- the hook
     def fn(self, via, msg):
         conn = self.conn
@@ -376,16 +439,25 @@ class Editor(object):
             self._flush()                          # the peer's own flush of its queue
             return []
         if ct != 22 and ct != 20:
+            self._release_span(None, via)
             self._direct(msg, "own")               # the peer's own alerts / data: logged, not edited
             return []
         j = self.pos
         self.pos += 1
         self.orig.append(kinds_of(msg)[0])
+        if self.span is not None:
+            if ct == 20:
+                self.span["extra"].append(msg)     # a CCS between the two messages goes out after the record
+                return []
+            self._release_span(msg, via)
+            return []
         mine = [e for e in self.edits if e[1] == j]
         before = []
         skip = False
         dup = False
         hold = False
+        frag = False
+        span = False
         state = None
         for e in mine:
             op = e[0]
@@ -403,6 +475,10 @@ class Editor(object):
                 dup = True
             elif op == "swap":
                 hold = True
+            elif op == "frag":
+                frag = True
+            elif op == "span":
+                span = True
             elif op == "epoch":
                 state = self._other_state(e[2])
                 if state is None:
@@ -418,6 +494,15 @@ class Editor(object):
             self._emit(via, m, o, hstate, uh)
         if hold and not skip:
             self.held = (msg, (self.epoch_now(), conn._recordLayer._writeState), via)
+        elif not skip and span and ct == 22:
+            # keep it back until the next handshake message exists; it is hashed NOW (the peer's key
+            # schedule depends on the transcript at this point), only the record is built later
+            if via == "queue":
+                self._flush()
+            conn._handshake_hash.update(bytearray(msg.write()))
+            self.span = {"msg": msg, "state": (self.epoch_now(), conn._recordLayer._writeState), "extra": []}
+        elif not skip and frag:
+            self._emit_with_fragment(via, msg)
         elif not skip:
             self._emit(via, msg, "own", state if state is not None else hstate)
             if dup:
@@ -432,6 +517,22 @@ class Editor(object):
         if self.held is not None:
             self.na.append((("swap", self.pos - 1), "no successor"))
             self.held = None
+        if self.span is not None:
+            try:
+                self._release_span(None, "send")
+                self.conn.sock.flush()
+            except Exception as x:  # noqa: B902
+                self.na.append((("span",), "send failed: " + type(x).__name__))
+        if getattr(self, "frag_rest", None) and not self.conn.closed:
+            from tlslite.messages import Message
+            try:
+                self._flush()
+                self.emitted.append({"kind": "key_update", "epoch": self.epoch_now(), "plus": False, "origin": "insert"})
+                drain(self.cls._sendMsg(self.conn, Message(22, bytearray(self.frag_rest)), True, False))
+                self.conn.sock.flush()
+            except Exception as x:  # noqa: B902
+                self.na.append((("frag-rest",), "send failed: " + type(x).__name__))
+            self.frag_rest = None
         tail = [e for e in self.edits if e not in self.applied and e[0] in ("insert", "nohash_insert")
                 and e[1] >= self.pos]
         if tail and not self.conn.closed:
@@ -798,6 +899,11 @@ def compare(obs, m):
         if e["origin"] in ("insert", "replace", "nohash_insert") and e["kind"] in CONTENT_KINDS and code in "NP":
             cut = handed
             break
+        if (e.get("frag") or e.get("span")) and code in "NP":
+            # stray handshake bytes stay in the victim's defragmenter and are glued to whatever comes
+            # next: from here on the outcome depends on bytes, not on message kinds
+            cut = handed
+            break
         if e["origin"] == "swapped" and code in "NXP":
             cut = handed               # the peer computed later messages (Finished) before this one went out
             break
@@ -834,7 +940,8 @@ def compare(obs, m):
         elif alert == "wrong_epoch":
             # the record is garbage for the victim: it never proceeds; which alert (or an endless wait
             # for the rest of a "message" whose length field is random) depends on the bytes
-            if real not in WRONG_EPOCH_OK:
+            # (an alert-type record of garbage is read as some alert from the peer: closed)
+            if real not in WRONG_EPOCH_OK and not (real or "").startswith("closed:"):
                 diffs.append("status")
             if nrec_of(obs) != m["del"]:
                 diffs.append("delivered")
@@ -1000,7 +1107,10 @@ def single_deviations(orig, kinds_at, replace_at=None):
     return devs
 
 
-def targeted_deviations(orig, victim):
+MUST_ALIGN = ("client_hello", "end_of_early_data", "server_hello", "hrr", "finished", "key_update")
+
+
+def targeted_deviations(orig, victim, ver=None):
     """deviations aimed at the renegotiation branch of _getMsg: a hello the peer does not put into
     its own transcript (what an on-path injector of a plaintext record achieves); and the SSLv3
     no_certificate warning in place of the client Certificate (accepted by an SSLv3 server only)"""
@@ -1012,6 +1122,14 @@ def targeted_deviations(orig, victim):
         devs.append([("replace", j, "no_certificate_alert")])
         if "certificate_verify" in orig:
             devs.append([("replace", j, "no_certificate_alert"), ("skip", orig.index("certificate_verify"))])
+    if ver == "tls13":
+        # RFC 8446 5.1: the messages before a key change must end their record; here the record also
+        # carries the first bytes of a following handshake message
+        for j, k in enumerate(orig):
+            if k in MUST_ALIGN:
+                devs.append([("frag", j)])
+                if any(x != "ccs" for x in orig[j + 1:]):
+                    devs.append([("span", j)])
     return [d for d in devs if d]
 
 
@@ -1065,6 +1183,25 @@ def evaluate(ctx, pending, scn, victim, edits, bank, kw, label="dev"):
                    recs_at_done=obs["recs_at_done"], emitted=fmt_emitted(obs["emitted"]), data=obs["data"].hex(),
                    cfg=cfg_string(p))
     # ---- direct oracle -----------------------------------------------------------------------
+    if p["ver"] == "tls13":
+        # RFC 8446 5.1: ClientHello, EndOfEarlyData, ServerHello, Finished and KeyUpdate must end at a
+        # record boundary; an endpoint must not get past one whose record carries further handshake bytes
+        for i, e in enumerate(obs["emitted"]):
+            if e["plus"] and e["kind"] in MUST_ALIGN and e["origin"] not in ("nohash_insert",):
+                # a key change follows for the RECEIVER after: ServerHello (not HRR), the ClientHello the
+                # server answers with its flight (the second one after an HRR), Finished, KeyUpdate
+                if e["kind"] == "hrr":
+                    continue
+                if e["kind"] == "client_hello" and p["hrr"] and \
+                        [x["kind"] for x in obs["emitted"][:i]].count("client_hello") == 0:
+                    continue
+                past = len(obs["received"]) > i + 1 or (obs["hs"] == "complete" and (obs["recs_at_done"] or 0) > i)
+                if past and obs["received"][:i + 1] == [x["kind"] for x in obs["emitted"][:i + 1]]:
+                    ctx.violation("c06:tls13-message-before-key-change-not-aligned:%s:%s" % (victim, e["kind"]),
+                                  "%s (%s) went on after a %s whose record carried further handshake bytes "
+                                  "(RFC 8446 5.1: handshake messages must not span key changes)"
+                                  % (victim, scn_name(scn), e["kind"]), dict(summary, stage="oracle-align"))
+                break
     if obs["hs"] == "complete":
         prefix = obs["received"][:obs["recs_at_done"]]
         if not rfc_allowed(p, prefix):
@@ -1314,14 +1451,14 @@ def run(ctx):
                     def replace_at(j, _r=rng):
                         return _r.sample(INSERT_KINDS, 5)
                     devs = single_deviations(orig, kinds_at, replace_at)
-                devs += targeted_deviations(orig, victim)
+                devs += targeted_deviations(orig, victim, scn["ver"])
             else:
                 n = len(orig)
                 devs = [[("skip", j)] for j in range(n)] + [[("dup", j)] for j in range(n)] + \
                        [[("swap", j)] for j in range(n - 1)]
                 for _ in range(6):
                     devs.append([(rng.choice(["insert", "replace"]), rng.randrange(n), rng.choice(INSERT_KINDS))])
-                devs += targeted_deviations(orig, victim)[-3:]
+                devs += targeted_deviations(orig, victim, scn["ver"])[-5:]
             for edits in devs:
                 kw = prime(scn) if scn.get("res") else {}
                 evaluate(ctx, pending, scn, victim, edits, bank, kw)
@@ -1354,6 +1491,14 @@ def run(ctx):
 
 def replay(ctx, rep):
     inp = rep["input"]
+    if inp.get("stage") == "correspondence" and isinstance(inp.get("first"), dict):
+        # a model/implementation disagreement: re-run the recorded cases only
+        still = False
+        for d in inp.get("all") or [inp["first"]]:
+            c = d.get("case") or {}
+            if c.get("scn") and c.get("victim"):
+                still = replay(ctx, {"input": c}) or still
+        return still
     scn = inp.get("scn")
     if not scn or "victim" not in inp:
         print("replay of stage %r: re-running the whole check" % inp.get("stage"))
